@@ -317,7 +317,7 @@ var _ = filepath.Join
 type ImportCase struct {
 	Format   string   `json:"format"`
 	Versions []string `json:"versions"`
-	Extra    string   `json:"extra,omitempty"` // flyway: repeatable | baseline | undo
+	Extra    string   `json:"extra,omitempty"` // flyway: repeatable | baseline | undo | subdir_below_dotdir
 }
 
 func importFiles(c ImportCase) map[string]string {
@@ -337,6 +337,11 @@ func importFiles(c ImportCase) map[string]string {
 		case "liquibase":
 			out[v+"_"+name+".sql"] = "--liquibase formatted sql\n\n--changeset atlas:" + v + "-1\n" + up + "--rollback: " + down
 		case "flyway":
+			if c.Extra == "subdir_below_dotdir" && i == len(c.Versions)-1 {
+				// Flyway scans sub-directories (hidden ones excepted).
+				out["sub/V"+v+"__"+name+".sql"] = up
+				continue
+			}
 			out["V"+v+"__"+name+".sql"] = up
 		}
 	}
@@ -358,11 +363,16 @@ func evalImport(c ImportCase) (problems []string) {
 		return []string{"harness: " + err.Error()}
 	}
 	defer wk.Close()
-	os.MkdirAll(wk.Path("src"), 0o755)
-	for n, body := range importFiles(c) {
-		os.WriteFile(wk.Path("src", n), []byte(body), 0o644)
+	src := wk.Path("src")
+	if c.Extra == "subdir_below_dotdir" {
+		// the directory itself lives below a hidden directory (e.g. ~/.cache/...): that must not matter.
+		src = wk.Path(".cache", "src")
 	}
-	res := wk.Run(nil, "migrate", "import", "--from", "file://"+wk.Path("src")+"?format="+c.Format, "--to", "file://"+wk.Path("dst"))
+	for n, body := range importFiles(c) {
+		os.MkdirAll(filepath.Dir(filepath.Join(src, n)), 0o755)
+		os.WriteFile(filepath.Join(src, n), []byte(body), 0o644)
+	}
+	res := wk.Run(nil, "migrate", "import", "--from", "file://"+src+"?format="+c.Format, "--to", "file://"+wk.Path("dst"))
 	if res.Exit != 0 {
 		bad("`migrate import` failed: %s", res)
 		return
@@ -414,7 +424,7 @@ func importCases(tier string) []ImportCase {
 			}
 			cs = append(cs, ImportCase{Format: f, Versions: vs})
 			if f == "flyway" {
-				for _, x := range []string{"repeatable", "baseline", "undo"} {
+				for _, x := range []string{"repeatable", "baseline", "undo", "subdir_below_dotdir"} {
 					cs = append(cs, ImportCase{Format: f, Versions: vs, Extra: x})
 				}
 			}
